@@ -35,11 +35,12 @@ def corrupt(behs):
     """Binding self-test (VERIF_CORRUPT=1): remove one offset from one predicted selection (a cell interior, far from rounding)."""
     for b in behs:
         for k, r in enumerate(b["ratios"]):
-            for step in b["pos"][k]:
-                for u in step:
-                    if u % 4 == 2 and abs(u - r) > 3:
-                        step.remove(u)
-                        return
+            for u in [x for step in b["pos"][k] for x in step]:
+                if u % 4 == 2 and abs(u - r) > 3:
+                    for step in b["pos"][k]:
+                        if u in step:
+                            step.remove(u)
+                    return
     raise RuntimeError("nothing to corrupt")
 
 
